@@ -9,11 +9,15 @@ the callback-carrying builtins of object/list.go and builtins/builtins.go) as it
   compute, unbounded compute loops, blocking primitives, builtins that call a script
   function back on the same VM — the callback builtins of the repository, and host-provided
   builtins that hand the callback a context of their own making (`Wrap.host`: one cancelled
-  with the run's, or a detached one) —, and `go`/`spawn`;
+  with the run's, or a detached one) —, plain script calls `f()`, `defer` statements (a
+  DEFERRED script closure is kept by the function frame that executed the statement and runs
+  when that frame is left — by a return, by an error, or because the halt test stopped it),
+  and `go`/`spawn`;
 * a *thread* is one goroutine running script code on its own VM (the main thread on the VM
   that `Run`/`Call` started, every spawned thread on a clone): the VM's `halt` flag, whether
-  `start()` armed a context watcher for it, what it is doing, and the stack of builtin
-  callback frames it is inside of;
+  `start()` armed a context watcher for it, what it is doing, and the stack of `callFunction`
+  frames it is inside of (builtin callbacks, script calls, deferred calls), each with the
+  deferred closures it holds;
 * a *system* is the cancelled flag of the (shared, inherited) context plus all threads;
 * a *trace* is any list of labels `cancel | fire i | step i`; `exec` applies it (labels that
   are not enabled are no-ops), so "for every interleaving" is "for every `List Label`".
@@ -44,6 +48,14 @@ inductive Cc where
               -- run: `context.WithoutCancel(ctx)`, `context.Background()` + the values copied
   deriving DecidableEq, Repr, Inhabited
 
+/-- what is known about an error travelling up: it still *is* the context's error
+    (`errors.Is(err, ctx.Err())`), only its text survived in a fresh error value, or it is the
+    Go panic of a pop from the empty stack (recovered by Run/Call: `panic: runtime error: index
+    out of range [-1]` — neither the context's error nor its text) -/
+inductive Err where
+  | ctx | msg | panic
+  deriving DecidableEq, Repr, Inhabited
+
 /-- builtins that call a script function back through `callFunction` on the same VM -/
 inductive Wrap where
   | each | map | filter  -- object/list.go: `return Errorf(err.Error())`
@@ -58,14 +70,16 @@ inductive Wrap where
       such pop finds the VM's stack empty (Go panic `index out of range [-1]`), `false` = every
       pop finds a value (the callback "returns" whatever was on top of the stack). -/
   | host (cc : Cc) (emptyPop : Bool)
-  deriving DecidableEq, Repr, Inhabited
-
-/-- what is known about an error travelling up: it still *is* the context's error
-    (`errors.Is(err, ctx.Err())`), only its text survived in a fresh error value, or it is the
-    Go panic of a pop from the empty stack (recovered by Run/Call: `panic: runtime error: index
-    out of range [-1]` — neither the context's error nor its text) -/
-inductive Err where
-  | ctx | msg | panic
+  /-- not a builtin: a plain script call `f()` (`op.Call` → `callObject` → `callFunction`, a
+      nested `eval` on the same VM with the same context); an error of the callee is returned
+      by the calling `eval` unchanged -/
+  | fn
+  /-- not a builtin either: the frame of a DEFERRED call.  `callFunction`'s Go-level `defer`
+      runs the deferred partials of the frame beneath through `callObject` (same VM, the
+      context `callFunction` was handed) when that frame is left; `pending` is the outcome of
+      the frame beneath so far (`none` = a result, `some e` = the error it is left with).
+      Never written in a program shape: only `leaveT` pushes it. -/
+  | dfr (pending : Option Err)
   deriving DecidableEq, Repr, Inhabited
 
 /-- program shapes (continuation style) -/
@@ -76,6 +90,8 @@ inductive Prog where
   | block (p : Prim) (k : Prog)                  -- blocks for ever unless the context fires
   | cb (w : Wrap) (body : Prog) (k : Prog)       -- builtin `w` runs `body` as a callback
   | spawn (id : Nat) (body : Prog) (k : Prog)    -- `go f()` / `spawn(f)`: `body` on a clone
+  | defer_ (d : Prog) (k : Prog)                 -- `defer func(){ d }()`: the innermost function
+                                                 -- frame keeps the closure; `k` goes on
   deriving DecidableEq, Repr, Inhabited
 
 /-- effect of a fired context on a thread blocked in the primitive: `some e` = an error is
@@ -100,21 +116,30 @@ def wrapErr : Wrap → Err → Option Err
   | _, .panic => some .panic      -- a Go panic unwinds through every builtin (none recovers)
   | .try_, _ => none
   | .host _ _, e => some e
+  | .fn, e => some e              -- `if err := vm.callObject(…); err != nil { return err }`
+  | .dfr _, e => some e           -- (a deferred call's frame is left through `returnT`)
   | _, _ => some .msg
 
 inductive St where
   | run (p : Prog)                 -- about to execute the first action of `p`
   | blocked (pr : Prim) (k : Prog) -- inside the primitive's `select`
-  | raising (e : Err)              -- an error is unwinding
+  | raising (e : Err)              -- an error is unwinding: the top frame is left with it
+  | leaving                        -- the top frame is left with a result, by Go code of
+                                   -- `callFunction` (its loop over the deferred calls): NO poll
   | fin (e : Option Err)           -- goroutine ended: normally / with an error
   deriving DecidableEq, Repr, Inhabited
+
+/-- one `callFunction` invocation on the VM: who called it, the code the caller resumes at,
+    and the deferred closures the frame holds (`frame.defers`, most recent first: `Defer`
+    prepends, the loop in `callFunction` runs them front to back) -/
+abbrev Frame := Wrap × Prog × List Prog
 
 structure Thread where
   id : Nat
   halt : Bool                      -- `vm.halt` of the VM this thread runs on
   armed : Bool                     -- `start()` armed a watcher goroutine for this VM
   st : St
-  frames : List (Wrap × Prog)      -- enclosing builtin callbacks with their continuations
+  frames : List Frame              -- enclosing `callFunction` frames, innermost first
   deriving DecidableEq, Repr, Inhabited
 
 def St.isFin : St → Bool
@@ -159,13 +184,75 @@ def expectCallFunctionFirstParam : String := "ctx context.Context"
 def expectCallFunctionEvalArg : String := "ctx"
 def expectRegisteredCallFunc : String := "vm.callFunction"
 
+/-- the deferred calls of a frame: ONE Go-level `defer` of `callFunction`, whose first
+    statement is the loop over `callFrame.defers` (it runs however the frame is left), each
+    partial through `vm.callObject` with the context `callFunction` was handed; nothing in it
+    mentions the halt flag -/
+def expectDeferRunnerCall : String := "vm.callObject(ctx, partial.Function(), partial.Args())"
+
 /-- the innermost enclosing host callback that was given a detached callee context (every
     context derived further in is detached as well), with its prophecy bit; `none` = the code
     the thread is executing was handed a context that fires with the run's -/
-def detachedBy : List (Wrap × Prog) → Option Bool
+def detachedBy : List Frame → Option Bool
   | [] => none
-  | (.host .detached e, _) :: _ => some e
+  | (.host .detached e, _, _) :: _ => some e
   | _ :: fs => detachedBy fs
+
+/-! ### leaving a frame: the deferred calls
+
+`callFunction` registers a Go-level `defer` that, HOWEVER the frame is left — `eval` returned
+a result, an error, or the halt test's `ctx.Err()` —, calls every deferred partial of the frame
+through `vm.callObject(ctx, …)`: a deferred script closure is one more `callFunction` / `eval`
+on the same VM with the same context, so its FIRST instruction polls the flag like any other.
+An error of a deferred call replaces the frame's outcome (`result = nil; resultErr = err`) and
+the loop goes on; a Go panic (`Err.panic`) keeps unwinding whatever the deferred calls do.
+Nothing here reads or writes `vm.halt` (tied: `Ties.deferred_calls_run_under_the_flag_tie`). -/
+
+/-- outcome of a frame after one of its deferred calls ended with `o` -/
+def deferredOutcome (pending o : Option Err) : Option Err :=
+  match pending, o with
+  | some .panic, _ => some .panic
+  | _, some e => some e
+  | p, none => p
+
+/-- `callFunction` returns to whoever called it (all deferred calls of the frame are over):
+    a builtin or the calling `eval` for a callback / script call (`wrapErr`), the loop over
+    the deferred calls of the frame beneath for a deferred call -/
+def returnT (t : Thread) (w : Wrap) (k : Prog) (fs : List Frame) (o : Option Err) : Thread :=
+  match w with
+  | .dfr pending =>
+    match deferredOutcome pending o with
+    | none => { t with st := .leaving, frames := fs }
+    | some e => { t with st := .raising e, frames := fs }
+  | _ =>
+    match o with
+    | none => { t with st := .run k, frames := fs }
+    | some e =>
+      match wrapErr w e with
+      | none => { t with st := .run k, frames := fs }
+      | some e' => { t with st := .raising e', frames := fs }
+
+/-- the top frame is left with outcome `o`: its next deferred closure `d` starts (a new frame
+    `.dfr o` on top; the flag is NOT touched), or, none being left, `callFunction` returns -/
+def leaveT (t : Thread) (o : Option Err) : Thread :=
+  match t.frames with
+  | [] => { t with st := .fin o }
+  | (w, k, d :: ds) :: fs =>
+    { t with st := .run d, frames := (.dfr o, .done, []) :: (w, k, ds) :: fs }
+  | (w, k, []) :: fs => returnT t w k fs o
+
+/-- CONTRAST, not the code as it is: a `callFunction` that lowers the flag while the deferred
+    calls of a frame run ("cleanup code has to run") — and would raise it again afterwards.
+    The watcher goroutine is one-shot and has already stored its 1, so nothing raises the
+    flag while a deferred call runs: see `Props.deferLowering_not_stopped`. -/
+def leaveLowering (t : Thread) (o : Option Err) : Thread := { leaveT t o with halt := false }
+
+/-- `defer func(){ d }()`: `frame.Defer` prepends the partial to the defers of the active
+    function frame (the compiler rejects `defer` outside a function) -/
+def registerT (t : Thread) (d k : Prog) : Thread :=
+  match t.frames with
+  | [] => { t with st := .run k }
+  | (w, k0, ds) :: fs => { t with st := .run k, frames := (w, k0, d :: ds) :: fs }
 
 /-- what a thread does when the halt test of its current `eval` finds the flag raised
     (`pollImpl true _ = .stop _`): the frame is abandoned in every case.  Consulted context
@@ -176,10 +263,7 @@ def haltedT (t : Thread) : Thread :=
   match detachedBy t.frames with
   | none => { t with st := .raising .ctx }
   | some true => { t with st := .raising .panic }
-  | some false =>
-    match t.frames with
-    | [] => { t with st := .raising .ctx }     -- unreachable: `detachedBy [] = none`
-    | (_, k) :: fs => { t with st := .run k, frames := fs }
+  | some false => leaveT t none      -- (`detachedBy [] = none`: there is a frame to leave)
 
 /-- One step of one thread; `c` = the context has fired.  Returns the new thread state and
     the body of a function it spawned, if any.  Every instruction polls `halt` first
@@ -187,13 +271,8 @@ def haltedT (t : Thread) : Thread :=
 def stepT (c : Bool) (t : Thread) : Thread × Option (Nat × Prog) :=
   match t.st with
   | .fin _ => (t, none)
-  | .raising e =>
-    match t.frames with
-    | [] => ({ t with st := .fin (some e) }, none)
-    | (w, k) :: fs =>
-      match wrapErr w e with
-      | none => ({ t with st := .run k, frames := fs }, none)
-      | some e' => ({ t with st := .raising e', frames := fs }, none)
+  | .raising e => (leaveT t (some e), none)
+  | .leaving => (leaveT t none, none)
   | .blocked pr k =>
     if c then
       match primEffect pr with
@@ -203,9 +282,9 @@ def stepT (c : Bool) (t : Thread) : Thread × Option (Nat × Prog) :=
   | .run .done =>
     match t.frames with
     | [] => ({ t with st := .fin none }, none)
-    | (_, k) :: fs =>
+    | _ :: _ =>
       if t.halt then (haltedT t, none)
-      else ({ t with st := .run k, frames := fs }, none)
+      else (leaveT t none, none)
   | .run (.compute k) =>
     if t.halt then (haltedT t, none) else ({ t with st := .run k }, none)
   | .run .spin =>
@@ -214,10 +293,12 @@ def stepT (c : Bool) (t : Thread) : Thread × Option (Nat × Prog) :=
     if t.halt then (haltedT t, none) else ({ t with st := .blocked pr k }, none)
   | .run (.cb w body k) =>
     if t.halt then (haltedT t, none)
-    else ({ t with st := .run body, frames := (w, k) :: t.frames }, none)
+    else ({ t with st := .run body, frames := (w, k, []) :: t.frames }, none)
   | .run (.spawn id body k) =>
     if t.halt then (haltedT t, none)
     else ({ t with st := .run k }, some (id, body))
+  | .run (.defer_ d k) =>
+    if t.halt then (haltedT t, none) else (registerT t d k, none)
 
 structure Cfg where
   armClones : Bool
@@ -277,16 +358,23 @@ def size : Prog → Nat
   | .block _ k => 3 + size k
   | .cb _ body k => 2 + size body + size k
   | .spawn _ _ k => 1 + size k
+  | .defer_ d k => 6 + size d + size k
 
 def potSt : St → Nat
   | .run p => size p
   | .blocked _ k => 2 + size k
   | .raising _ => 1
+  | .leaving => 1
   | .fin _ => 0
 
-def potFrames : List (Wrap × Prog) → Nat
+/-- what the deferred closures a frame holds can still cost: each runs as a frame of its own -/
+def potDefers : List Prog → Nat
   | [] => 0
-  | (_, k) :: fs => 1 + size k + potFrames fs
+  | d :: ds => 5 + size d + potDefers ds
+
+def potFrames : List Frame → Nat
+  | [] => 0
+  | (_, k, ds) :: fs => 1 + size k + potDefers ds + potFrames fs
 
 def potT (t : Thread) : Nat := potSt t.st + potFrames t.frames
 
@@ -312,6 +400,7 @@ def noSpin : Prog → Bool
   | .block _ k => noSpin k
   | .cb _ body k => noSpin body && noSpin k
   | .spawn _ body k => noSpin body && noSpin k
+  | .defer_ d k => noSpin d && noSpin k
 
 /-- no unbounded compute loop inside a spawned function (at any nesting depth) -/
 def noCloneSpin : Prog → Bool
@@ -321,6 +410,7 @@ def noCloneSpin : Prog → Bool
   | .block _ k => noCloneSpin k
   | .cb _ body k => noCloneSpin body && noCloneSpin k
   | .spawn _ body k => noSpin body && noCloneSpin k
+  | .defer_ d k => noCloneSpin d && noCloneSpin k
 
 /-- outside spawned functions: no construct that swallows the cancellation
     (`try`, `time.sleep`, range over a channel) -/
@@ -331,6 +421,7 @@ def noSwallow : Prog → Bool
   | .block p k => (primEffect p).isSome && noSwallow k
   | .cb w body k => w != .try_ && noSwallow body && noSwallow k
   | .spawn _ _ k => noSwallow k
+  | .defer_ d k => noSwallow d && noSwallow k
 
 /-- outside spawned functions: nothing that replaces the context's error by a copy of its
     text (every callback-carrying builtin, `thread.wait`) and nothing that swallows it -/
@@ -341,6 +432,7 @@ def noLossy : Prog → Bool
   | .block p k => primEffect p == some .ctx && noLossy k
   | .cb _ _ _ => false
   | .spawn _ _ k => noLossy k
+  | .defer_ _ _ => false           -- (only inside a function frame, i.e. inside a `.cb`)
 
 /-- outside spawned functions: no host callback with a detached callee context (guard of the
     finding "the halt test returns the error of the context the callee was handed") -/
@@ -353,6 +445,7 @@ def noDetached : Prog → Bool
       | .host .detached _ => false
       | _ => true) && noDetached body && noDetached k
   | .spawn _ _ k => noDetached k
+  | .defer_ d k => noDetached d && noDetached k
 
 /-! ### domain of the Impl model for detached callee contexts
 
@@ -362,7 +455,8 @@ inherits that context, and `sorted`/`map`/`filter` go on to inspect the junk val
 abandoned callback "returned".  None of that is modelled: inside the body of a host callback
 with a detached context the model covers computation, loops, and the callbacks of host
 builtins, `each`, `call` and `try`, nested to any depth (`wf`; the oracle rejects other
-shapes, the generator does not produce them). -/
+shapes, the generator does not produce them).  Script calls and `defer` statements are not
+modelled under a detached callee context either. -/
 
 /-- code that may run under a detached callee context -/
 def computeOnly : Prog → Bool
@@ -377,16 +471,50 @@ def computeOnly : Prog → Bool
       | .try_ => true
       | _ => false) && computeOnly body && computeOnly k
   | .spawn _ _ _ => false
+  | .defer_ _ _ => false
 
-def wf : Prog → Bool
+/-- no `defer` statement anywhere in the shape -/
+def noDefer : Prog → Bool
   | .done => true
-  | .compute k => wf k
+  | .compute k => noDefer k
   | .spin => true
-  | .block _ k => wf k
+  | .block _ k => noDefer k
+  | .cb _ body k => noDefer body && noDefer k
+  | .spawn _ body k => noDefer body && noDefer k
+  | .defer_ _ _ => false
+
+/-- no host callback with a detached context anywhere (spawned functions included) -/
+def noDetachedAnywhere : Prog → Bool
+  | .done => true
+  | .compute k => noDetachedAnywhere k
+  | .spin => true
+  | .block _ k => noDetachedAnywhere k
+  | .cb w body k => (match w with
+      | .host .detached _ => false
+      | _ => true) && noDetachedAnywhere body && noDetachedAnywhere k
+  | .spawn _ body k => noDetachedAnywhere body && noDetachedAnywhere k
+  | .defer_ d k => noDetachedAnywhere d && noDetachedAnywhere k
+
+/-- `inFn` = the code is the body of a function (a callback, a script call, a deferred
+    closure): a `defer` statement is only accepted there (the compiler rejects it at the top
+    level; the top-level function of a spawned thread or of `vm.Call` is not modelled as a
+    frame, so a `defer` directly in it is outside the model — the generator wraps it in a
+    script call).  `.dfr` is not a program construct. -/
+def wfIn (inFn : Bool) : Prog → Bool
+  | .done => true
+  | .compute k => wfIn inFn k
+  | .spin => true
+  | .block _ k => wfIn inFn k
   | .cb w body k => (match w with
       | .host .detached _ => computeOnly body
-      | _ => true) && wf body && wf k
-  | .spawn _ body k => wf body && wf k
+      | .dfr _ => false
+      | _ => true) && wfIn true body && wfIn inFn k
+  | .spawn _ body k => wfIn false body && wfIn inFn k
+  | .defer_ d k => inFn && wfIn true d && wfIn inFn k
+
+/-- deferred closures and detached callee contexts are not combined (how a Go panic of the
+    empty pop interleaves with the Go-level defers of `callFunction` is not modelled) -/
+def wf (p : Prog) : Bool := wfIn false p && (noDefer p || noDetachedAnywhere p)
 
 /-- set the prophecy bit of every host callback of the shape -/
 def setPop (b : Bool) : Prog → Prog
@@ -398,6 +526,7 @@ def setPop (b : Bool) : Prog → Prog
       | .host cc _ => .host cc b
       | w => w) (setPop b body) (setPop b k)
   | .spawn id body k => .spawn id (setPop b body) (setPop b k)
+  | .defer_ d k => .defer_ (setPop b d) (setPop b k)
 
 /-! ### evaluations on a VM that has been used before (`Run`, `Call`, `RunCode` again)
 
